@@ -20,6 +20,28 @@ static inline std::string key(const char* what) { return vh::cat(what, ".", g_or
 static uint64_t n_checks = 0, n_views = 0;
 
 struct mem_id { template <class R> pt::pixid operator()(R const& r) const { return pt::id_of(r); } };
+// views whose dereference yields a computed value (dereference adaptors): identity = the channel values,
+// which the harness makes unique per source pixel
+struct val_id {
+    template <class R> pt::pixid operator()(R const& r) const {
+        pt::pixid o; o.n = (int)gil::num_channels<R>::value;
+        for (int c = 0; c < o.n; ++c) o.bitpos[c] = (uint64_t)(long)r[c];
+        return o;
+    }
+};
+// stateful converter to rgb16: every destination channel encodes the source's red value and the converter's state
+struct code_cc {
+    int off;
+    code_cc() : off(0) {}
+    explicit code_cc(int o) : off(o) {}
+    static long want(long code, int c, int off) { return (c + 1) * code + c + off; }
+    template <class S, class D> void operator()(S const& src, D& dst) const {
+        long code = (long)gil::get_color(src, gil::red_t());
+        gil::get_color(dst, gil::red_t()) = (uint16_t)want(code, 0, off);
+        gil::get_color(dst, gil::green_t()) = (uint16_t)want(code, 1, off);
+        gil::get_color(dst, gil::blue_t()) = (uint16_t)want(code, 2, off);
+    }
+};
 
 template <class W, class IdFn>
 struct nav {
@@ -238,6 +260,33 @@ struct nav {
     }
 };
 
+// ---- dereference-adaptor views over a view d whose red channel is unique per pixel:
+// colour-converting view with a stateful converter, channel views of it (run-time index != 0 and
+// compile-time), and transformations applied on top of the adaptor (step iterators over adaptors).
+// Every navigation path must yield the value computed from the source pixel by THIS converter.
+template <class CV, class D> void deref_run(CV const& cv, D const& d, std::string const& word, vh::rng& r, int walk_len, int off, int first_ch, bool flip_lr, long sx_step, long sy_step) {
+    nav<CV, val_id> n(cv, val_id(), word);
+    n.run(r, walk_len);
+    for (long y = 0; y < cv.height(); ++y)
+        for (long x = 0; x < cv.width(); ++x) {
+            long dx = flip_lr ? d.width() - 1 - x * sx_step : x * sx_step, dy = y * sy_step;
+            long code = (long)gil::get_color(d(dx, dy), gil::red_t());
+            pt::pixid got = val_id()(cv(x, y));
+            ++n_checks;
+            for (int c = 0; c < got.n; ++c)
+                if ((long)got.bitpos[c] != (code_cc::want(code, first_ch + c, off) & 0xFFFF)) { n.bad("deref-value", vh::cat("(", x, ",", y, ") channel ", c, " reads ", (long)got.bitpos[c], " expected ", code_cc::want(code, first_ch + c, off) & 0xFFFF)); return; }
+        }
+}
+template <class D> void deref_views(D const& d, std::string const& word, vh::rng& r, int walk_len) {
+    int off = 100 + (int)(d.width() * 3 + d.height());
+    auto ccv = gil::color_converted_view<gil::rgb32_pixel_t>(d, code_cc(off));   // a pixel type no source has: a same-type "conversion" returns the source view
+    deref_run(ccv, d, word + ".ccv", r, walk_len, off, 0, false, 1, 1);
+    deref_run(gil::nth_channel_view(ccv, 2), d, word + ".ccv.nth2", r, walk_len, off, 2, false, 1, 1);
+    deref_run(gil::kth_channel_view<1>(ccv), d, word + ".ccv.kth1", r, walk_len, off, 1, false, 1, 1);
+    deref_run(gil::flipped_left_right_view(ccv), d, word + ".ccv.flipLR", r, walk_len, off, 0, true, 1, 1);
+    deref_run(gil::subsampled_view(gil::nth_channel_view(ccv, 1), 2, 3), d, word + ".ccv.nth1.subsampled23", r, walk_len, off, 1, false, 2, 3);
+}
+
 #if ORG < 100
 typedef org<ORG, led::alloc<unsigned char>>::image_t image_t;
 typedef image_t::view_t view_t;
@@ -249,7 +298,10 @@ struct visitor {
         nav<W, mem_id> n(d, mem_id(), m.word());
         n.run(r, walk_len);
         channel(d, m, std::integral_constant<bool, ((ORG >= 1 && ORG <= 11 && ORG != 6) || ORG == 25 || ORG == 26)>());
+        deref(d, m, std::integral_constant<bool, (ORG == 1 || ORG == 2 || ORG == 9)>());
     }
+    template <class W> void deref(W const& d, mapping const& m, std::true_type) { if (m.steps.size() <= 1) { vh::obs("deref-adaptor-views"); deref_views(d, m.word(), r, walk_len); } }
+    template <class W> void deref(W const&, mapping const&, std::false_type) {}
     template <class W> void channel(W const& d, mapping const& m, std::true_type) {
         auto cv = gil::nth_channel_view(d, (int)(m.steps.size() % pt::nch<typename W::value_type>::value));
         nav<decltype(cv), mem_id> n(cv, mem_id(), m.word() + ".nth_channel");
@@ -257,6 +309,15 @@ struct visitor {
     }
     template <class W> void channel(W const&, mapping const&, std::false_type) {}
 };
+
+template <class V> void fill_codes(V const& v, std::true_type) {
+    for (long y = 0; y < v.height(); ++y) for (long x = 0; x < v.width(); ++x) {
+        gil::get_color(v(x, y), gil::red_t()) = (uint8_t)(y * 16 + x + 1);
+        gil::get_color(v(x, y), gil::green_t()) = (uint8_t)(255 - (y * 16 + x));
+        gil::get_color(v(x, y), gil::blue_t()) = 7;
+    }
+}
+template <class V> void fill_codes(V const&, std::false_type) {}
 
 int main(int argc, char** argv) {
     vh::init(argc, argv);
@@ -272,6 +333,7 @@ int main(int argc, char** argv) {
             {
                 image_t img(w, h, al);
                 view_t v = gil::view(img);
+                fill_codes(v, std::integral_constant<bool, (ORG == 1 || ORG == 2 || ORG == 9)>());
                 vh::rng r = vh::case_rng();
                 visitor vis(r, vh::thorough() ? 64 : 16);
                 int depth = (vh::thorough() && w * h <= 36) ? 2 : 1;
@@ -298,12 +360,12 @@ struct coord_fn {
     typedef point_t argument_type;
     typedef reference result_type;
     static constexpr bool is_mutable = false;
-    result_type operator()(point_t const& p) const { return value_type((uint16_t)(p.x + 1000), (uint16_t)(p.y + 2000), 0); }
+    result_type operator()(point_t const& p) const { return value_type((uint16_t)(p.y * 64 + p.x + 1), (uint16_t)(p.x + 1000), (uint16_t)(p.y + 2000)); }
 };
-struct virt_id { pt::pixid operator()(gil::rgb16_pixel_t const& p) const { pt::pixid o; o.n = 2; o.bitpos[0] = p[0]; o.bitpos[1] = p[1]; return o; } };
+struct virt_id { pt::pixid operator()(gil::rgb16_pixel_t const& p) const { pt::pixid o; o.n = 2; o.bitpos[0] = p[1]; o.bitpos[1] = p[2]; return o; } };
 typedef gil::virtual_2d_locator<coord_fn, false> vloc_t;
 typedef gil::image_view<vloc_t> vview_t;
-template <class W> void vrun(W const& v, std::string const& word, vh::rng& r) { nav<W, virt_id> n(v, virt_id(), word); n.run(r, 16); }
+template <class W> void vrun(W const& v, std::string const& word, vh::rng& r) { nav<W, virt_id> n(v, virt_id(), word); n.run(r, 16); vh::obs("deref-adaptor-views"); deref_views(v, word, r, 8); }
 
 int main(int argc, char** argv) {
     vh::init(argc, argv);
